@@ -107,7 +107,8 @@ def gen_c05(tier, seed):
                     g.add(setup_ops(rnd_regs(r, psw_of(fl)), [], [hs[0]] + le(0x1234, 2), pc) + ['st'], 'align')
     return g.result('Every conditional branch/return opcode (byte and halfword forms, duplicate encodings included) x all 16 '
                     'condition-code combinations x boundary displacements / stack contents and stack positions; every '
-                    'unconditional transfer (BRB BRH BSBB BSBH JMP JSB RSB) with boundary targets.')
+                    'unconditional transfer (BRB BRH BSBB BSBH JMP JSB RSB) with boundary targets, JSB / JMP targets computed from the stack pointer '
+                    'and through words on the stack.')
 
 
 def mon_c05(case, obs):
@@ -290,7 +291,8 @@ def gen_c02(tier, seed):
     return g.result('Every data-processing opcode (CLR MOV MCOM MNEG INC DEC TST BIT CMP, 2- and 3-operand ADD SUB MUL DIV MOD '
                     'AND OR XOR, ARS LLS ALS LRS ROT, INSF EXTF) at B/H/W x register / memory / immediate operand forms x '
                     'boundary-value pairs and random values x random initial condition codes x all shift counts 0-31 x all '
-                    'field widths; divide-by-zero and MIN/-1 included.')
+                    'field widths; divide-by-zero and MIN/-1 included; every divide / remainder opcode with a zero divisor in every source form under all 16 '
+                    'condition-code states.')
 
 
 # ----------------------------------------------------------------------------- C03
@@ -449,7 +451,8 @@ def gen_c03(tier, seed):
                     'destinations included), with and without each expanded-type prefix on either operand, all base registers, '
                     'boundary displacements of every width, MOVAW / PUSHAW address probes at wrap-around addresses, operand '
                     'positions 2-3 via EXTFW, and every ordered pair of expanded types spread over three- and four-operand instructions '
-                    '(prefix, different prefix, then un-prefixed operands).')
+                    '(prefix, different prefix, then un-prefixed operands); read-modify-write instructions (SWAPxI, INC, DEC, CLR, MNEG, MCOM) '
+                    'addressed through every base register including %r0.')
 
 
 # ----------------------------------------------------------------------------- C04 (decode engine)
@@ -659,7 +662,7 @@ def gen_c04(tier, seed):
     return g.result('Decode-only runs: all 256 first bytes, all 256 second bytes after 0x30, for every operand signature (every '
                     'opcode in the thorough tier) and operand position all 256 descriptor bytes alone and after each of the 16 '
                     '0xE? prefixes followed by random constants, four code alignments, longest encodings, random strings, code '
-                    'rewritten between decodes, and PC advance of executed non-branching instructions.')
+                    'rewritten between decodes, and one executed step of EVERY opcode of the table (PC advance, whole state compared).')
 
 
 def mon_c04(case, obs):
@@ -843,7 +846,7 @@ def gen_c06(tier, seed):
     return g.result('Balanced nests generated from B ::= leaf | B B | PUSHW v; B; POPW | SAVE %rN; clobber; B; RESTORE %rN | JSB/BSBH/BSBB sub(B; RSB) | '
                     'PUSHW args; CALL -4n(%sp), sub(B; RET), to the stated depth, with random stack/frame/argument pointers in RAM and random '
                     'registers, run to completion; plus single stack / linkage instructions with pointers at the edges of RAM, unaligned, '
-                    'in ROM and in unmapped space.')
+                    'in ROM and in unmapped space; BSBB / BSBH displacement sweep in both directions up to the field limits; pushes of expanded-type operands.')
 
 
 def mon_c06(case, obs):
@@ -1001,7 +1004,8 @@ def gen_c13(tier, seed):
     return g.result('Every data-processing / move / stack instruction class (B/H/W forms) with each operand in turn pointing at unmapped space '
                     '(holes after every device, above RAM, top of the address space) or, for destinations, ROM, through absolute, register-deferred '
                     'and displacement modes; gate tables and a handler (optionally disturbing the flags) ending in RETG; stepped with Cpu::step '
-                    'through the fault and the return; stack in several RAM positions, IPL and execution level varied.')
+                    'through the fault and the return; stack in several RAM positions (8-byte aligned or not), IPL and execution level varied; returns and pops '
+                    'whose stack word lies in the hole below RAM; STREND / MOVBLW running into holes and ROM.')
 
 
 def mon_c13(case, obs):
@@ -1145,7 +1149,8 @@ def gen_c07(tier, seed):
     return g.result('Every processor priority level 0-15 x interrupt source combinations raised through the DUART (mouse buttons, keyboard / RS-232 '
                     'receive, transmitter ready, vertical blank by time, none) x handler control blocks with and without the R and I flags x '
                     'kernel / non-kernel interrupted level x random registers; the handler returns at once with RETPS; plus CALLPS / RETPS / '
-                    'ENBVJMP / DISVJMP at every current / previous level combination.')
+                    'ENBVJMP / DISVJMP at every current / previous level combination; interrupted PSWs with the bits around the priority field set; '
+                    'handler blocks with block-move lists of 0-3 entries; both receivers pending at one boundary.')
 
 
 def irq_level_doc(val):
